@@ -212,8 +212,8 @@ theorem failed_compact {cfg : Cfg} {T : List Tx} {fs : FS} {m : Mem} {cs : List 
       rw [this] at hk; simp [ioSteps] at hk
   have hruns : m.runs ≠ [] := by
     intro h0; rw [h0] at hne'; simp at hne'
-  obtain ⟨covered, h1, h2, h3⟩ := h.store.props
-  obtain ⟨lv, hlv, pp⟩ := pages_post hcap1 h hns covered h2 h3
+  obtain ⟨covered, h1, h2, h3, hdis⟩ := h.store.props_disj
+  obtain ⟨lv, hlv, pp⟩ := pages_post hcap1 h hns covered (cProps_disj h hdis) h2 h3
   obtain ⟨hS, _, _⟩ := compactA_steps cfg m fs.pv fs.wf hne' h.mwal pp.nofail
   have sa := compact_safe hcap1 h ht hns
   have hinv := inv_after_pages h hlv pp h1 h2
